@@ -279,8 +279,11 @@ func (g *msgGen) mutants(fields []wf, msgType string) []mutant {
 	// a tag number the dictionary does not know at all (below / above the user-defined range)
 	{
 		t := 4000 + rng.Intn(999)
-		if rng.Intn(2) == 0 {
+		switch rng.Intn(4) {
+		case 0:
 			t = 5000 + rng.Intn(5000)
+		case 1, 2:
+			t = []int{5000, 5000, 4999, 5001, 9999}[rng.Intn(5)] // the edges of the user-defined range (UserDefinedTagMin/Max)
 		}
 		for {
 			if _, ok := g.app.FieldTypeByTag[t]; !ok {
